@@ -486,6 +486,10 @@ class Check:
         self.cov["known_findings_seen"] = self.known_seen
         self.cov["notes"] = self.notes
         self.cov["samples"] = self.cov["samples"][:12] or ["(no samples recorded)"]
+        if not self.cov.get("discharged"):
+            # proof side did not complete: say so instead of claiming discharged obligations
+            self.cov["obligations_not_discharged"] = self.cov.pop("obligations", 0)
+            self.cov.pop("discharged", None)
         ev = {"property_id": self.prop, "tier": self.tier, "seed": self.seed, "level": level,
               "coverage": self.cov, "assumptions": assumptions or [], "wall_s": round(wall, 2), "violations": violations}
         os.makedirs(EVID, exist_ok=True)
